@@ -206,6 +206,7 @@ def run(tier, replay=None):
             if verdict['n'] != len(recs):
                 raise Inconclusive('EvalMon consumed %d of %d records' % (verdict['n'], len(recs)))
             chk.cov['eval_traces'] = len(scheds)
+            c03.drift_check(chk, w, wdir, recs, scheds, tag='two')
             seen_v = set()
             for b in verdict['bad']:
                 sc = scheds[b['tr'] - 1]
